@@ -41,6 +41,17 @@ ChunkLaw == \A ts \in Streams(N) : \A init \in SUBSET {"a", "b", "z"} :
                ~HasIncomplete(ts, PlainIncomplete)
                  => ChunkApply(init, ChunkOf(Condense(ts)), NoCover) = Fold(ts, init)
 
+\* a set of signed tokens without -* : no body in both polarities <=> walking it in any order gives
+\* one and the same result, and that result is the clear/remove-then-add reading
+NoClear == {t \in Complete : ~IsClear(t) /\ ~(t.kind = "star")}
+OrderLaw == \A C \in {X \in SUBSET NoClear : Cardinality(X) <= 4} : \A init \in SUBSET {"a", "b", "z"} :
+               /\ Unambiguous(C) <=> Cardinality(AllOrders(C, init)) = 1
+               /\ Unambiguous(C) => AllOrders(C, init) = {CondApply(C, init)}
+\* the reference condensation is a correct un-finalized form
+UnfinLaw == \A ts \in Streams(N) : UnfinalizedDomain(ts) => UnfinalizedFor(Condense(ts), ts, Bodies)
+
+ASSUME OrderLaw
+ASSUME UnfinLaw
 ASSUME CondenseLaw
 ASSUME CondenseUnambiguous
 ASSUME CondensePositives
